@@ -2,9 +2,14 @@ package main
 
 import (
 	"fmt"
+	"time"
 
 	"verif/vrt"
 )
+
+// exploreDeadline is the worker's soft deadline: an exploration that passes it stops and reports
+// itself capped (the check then reports exhaustive:false, never a violation).
+var exploreDeadline time.Time
 
 // exploreStats reports what a schedule/choice exploration covered.
 type exploreStats struct {
@@ -51,6 +56,10 @@ func exploreWithSetup(opt vrt.Options, bound int, maxExecs int64, setup func(), 
 			it := queues[cost][n-1]
 			queues[cost] = queues[cost][:n-1]
 			if maxExecs > 0 && st.Execs >= maxExecs {
+				st.Capped = true
+				return st
+			}
+			if !exploreDeadline.IsZero() && st.Execs&0x3f == 0 && time.Now().After(exploreDeadline) {
 				st.Capped = true
 				return st
 			}
